@@ -346,4 +346,67 @@ func Once3.Do
   exit_ensures[calls]   loglen(f) == b2i(actres(0, 0))
   exit_ensures[result]  result0 == o.R1 && result1 == o.R2 && result2 == o.R3
   exit_ensures[first]   !actres(0, 0) ==> result0 == oncefirst(o, R1) && result1 == oncefirst(o, R2) && result2 == oncefirst(o, R3)
+
+// ---------------------------------------------------------------- C18: AtomicValue, Pool
+// sync/atomic.Value's Load/Store/Swap/CompareAndSwap and sync.Pool's Get/Put are ASSUMED atomic actions with their
+// documented meaning (an atomic register; a pool that never hands one item to two Get callers). Each wrapper
+// method performs exactly one action, with its arguments in order, and derives its result from that action's
+// result only. The contents of an AtomicValue[T] / Pool[T] always have dynamic type T (shared-state invariant:
+// every value this type stores is a T), which makes the type assertions safe.
+
+func AtomicValue.Load
+  property C18
+  mode atomic
+  opt actions 1
+  requires v != nil
+  opt contenttype T
+  exit_ensures[action] actkind(0) == K_AVLoad && actobj(0) == ref(addr(v.atom))
+  exit_ensures[empty]  actres(0, 0) == nil ==> val == zero(T)
+  exit_ensures[value]  actres(0, 0) != nil ==> iface(val) == actres(0, 0)
+
+func AtomicValue.Store
+  property C18
+  mode atomic
+  opt actions 1
+  opt contenttype T
+  requires v != nil
+  exit_ensures[action] actkind(0) == K_AVStore && actobj(0) == ref(addr(v.atom)) && actarg(0, 0) == iface(val)
+
+func AtomicValue.Swap
+  property C18
+  mode atomic
+  opt actions 1
+  requires v != nil
+  opt contenttype T
+  exit_ensures[action] actkind(0) == K_AVSwap && actobj(0) == ref(addr(v.atom)) && actarg(0, 0) == iface(new)
+  exit_ensures[empty]  actres(0, 0) == nil ==> old == zero(T)
+  exit_ensures[value]  actres(0, 0) != nil ==> iface(old) == actres(0, 0)
+
+func AtomicValue.CompareAndSwap
+  property C18
+  mode atomic
+  opt actions 1
+  opt contenttype T
+  requires v != nil
+  exit_ensures[action] actkind(0) == K_AVCompareAndSwap && actobj(0) == ref(addr(v.atom)) && actarg(0, 0) == iface(old) && actarg(0, 1) == iface(new)
+  exit_ensures[result] swapped == actres(0, 0)
+
+func Pool.Get
+  property C18
+  mode atomic
+  opt immutable Pool.New
+  requires p != nil
+  opt contenttype T
+  exit_ensures[actions] nact <= 1 && (nact == 1 ==> actkind(0) == K_PoolGet && actobj(0) == ref(addr(p.pool)))
+  exit_ensures[pooled]  nact == 1 && actres(0, 0) != nil ==> iface(result) == actres(0, 0)
+  exit_ensures[new]     (nact == 0 || actres(0, 0) == nil) && p.New != nil ==> result == apply(p.New)
+  exit_ensures[zero]    (nact == 0 || actres(0, 0) == nil) && p.New == nil ==> result == zero(T)
+
+func Pool.Put
+  property C18
+  mode atomic
+  opt actions 1
+  opt contenttype T
+  requires p != nil
+  exit_ensures[action] actkind(0) == K_PoolPut && actobj(0) == ref(addr(p.pool)) && actarg(0, 0) == iface(x)
 @*/
